@@ -320,6 +320,33 @@ def key_covers(cls: "Classes", owner: Tuple[str, ast.ClassDef], key: ast.AST, pa
     return out if seen else None
 
 
+def _derived_from(fi: FuncInfo, key: ast.AST, param: str) -> bool:
+    """The key mentions a local whose value is computed (transitively) from `param`."""
+    dep: Set[str] = {param}
+    changed = True
+    while changed:
+        changed = False
+        for n in astq.walk_no_nested(fi.node):
+            tgts: List[ast.AST] = []
+            val = None
+            if isinstance(n, ast.Assign):
+                tgts, val = list(n.targets), n.value
+            elif isinstance(n, (ast.AnnAssign, ast.AugAssign)) and n.value is not None:
+                tgts, val = [n.target], n.value
+            elif isinstance(n, (ast.For, ast.AsyncFor)):
+                tgts, val = [n.target], n.iter
+            if val is None:
+                continue
+            if any(isinstance(x, ast.Name) and x.id in dep for x in ast.walk(val)):
+                for t in tgts:
+                    for nm in astq.target_names(t):
+                        if nm not in dep:
+                            dep.add(nm)
+                            changed = True
+    dep.discard(param)
+    return any(isinstance(x, ast.Name) and x.id in dep for x in ast.walk(key))
+
+
 def _is_dict(e: ast.AST) -> bool:
     return isinstance(e, ast.Dict) or (isinstance(e, ast.Call) and astq.callee_name(e) in ("dict", "defaultdict", "OrderedDict", "WeakValueDictionary"))
 
@@ -408,6 +435,10 @@ def findings(repo: Repo):
             reads = reads_of_param(repo, cls, fi, a.arg, owner)
             reads = fields if ALL in reads else (reads & fields)
             covered = key_covers(cls, owner, key, a.arg)
+            if covered is None and _derived_from(fi, key, a.arg):
+                # the key is built from locals computed from this object (e.g. the region triples of `self`): which part of
+                # the object they determine is not read here - nothing is claimed (the property's own history rules decide)
+                continue
             missing = reads - (covered or set())
             if missing:
                 out.append(
